@@ -155,9 +155,9 @@ func Fraction(ll orb.Point, z Zoom) orb.Point {
 	p[0] = lng * maxtiles
 
 	// bound it because we have a top of the world problem
-	if ll[1] < -85.0511 {
+	if ll[1] < -85.0511287798 {
 		p[1] = maxtiles - 1
-	} else if ll[1] > 85.0511 {
+	} else if ll[1] > 85.0511287798 {
 		p[1] = 0
 	} else {
 		siny := math.Sin(ll[1] * math.Pi / 180.0)
